@@ -13,7 +13,10 @@
      <ret_*> slots (state variables), FailStep -> goto 999, SwitchPhase -> next phase + goto 999
      (shape switch switch_exits), Raise -> write to stderr + stop;
    * dag_ast.py:280-350    statement_to_ast / conditional_to_ast / loop_to_ast_node: a statement
-     becomes  for-loops( if guard ( statement without loops and guard ) );  Nops and statements
+     becomes  for-loops( if guard ( statement without loops and guard ) )  -- or, with the shape
+     switch guard_outside (fixes/C01_guard_outside_loops.patch),
+     if guard ( for-loops( statement without loops and guard ) ), which is what the interpreter does:
+     the guard is evaluated once, before the loop bounds;  Nops and statements
      guarded by the constant False are dropped.  Statements are taken in PROGRAM ORDER and the tree
      is NOT simplified: the topological order (C05), simplify_ast (C06) and the four rewriting
      passes (C07) are modelled elsewhere; by C02 every dependency-respecting order of a builder
@@ -84,10 +87,18 @@ Definition loops_of (k : skind) : list (var * expr * expr) :=
 Definition guard_node (st : stmt) : ftree :=
   if is_true_const (scond st) then FStmt (strip_loops (skd st))
   else FIf (scond st) (FStmt (strip_loops (skd st))).
-Definition wrap (st : stmt) : ftree :=
-  fold_right (fun l t => FFor (fst (fst l)) (snd (fst l)) (snd l) t) (guard_node st) (loops_of (skd st)).
+Definition nest_of (t : ftree) (loops : list (var * expr * expr)) : ftree :=
+  fold_right (fun l t => FFor (fst (fst l)) (snd (fst l)) (snd l) t) t loops.
+(* guard_outside = false: loop_to_ast_node wraps the loops around conditional_to_ast(statement);
+   guard_outside = true : the conditional is wrapped around loops_to_ast(statement) *)
+Definition wrap (guard_outside : bool) (st : stmt) : ftree :=
+  if guard_outside then
+    let body := nest_of (FStmt (strip_loops (skd st))) (loops_of (skd st)) in
+    if is_true_const (scond st) then body else FIf (scond st) body
+  else nest_of (guard_node st) (loops_of (skd st)).
 Definition emitted (st : stmt) : bool := negb (is_nop (skd st)) && negb (is_false_const (scond st)).
-Definition lower (stmts : list stmt) : list ftree := map wrap (filter emitted stmts).
+Definition lower (guard_outside : bool) (stmts : list stmt) : list ftree :=
+  map (wrap guard_outside) (filter emitted stmts).
 
 (* expand_IfThenElse + an emitter that ignores statement conditions: the else value wins *)
 Fixpoint always_else (e : expr) : expr :=
@@ -147,6 +158,7 @@ Section Target.
   Variable ubound_m1 : bool.         (* do-loop upper bound is ubound-1 *)
   Variable switch_exits : bool.      (* goto 999 after the assignment of a SwitchPhase *)
   Variable next_first : bool.        (* run assigns the default successor before the call *)
+  Variable guard_outside : bool.     (* the guard of a looped assignment is lowered outside its loops *)
   Variable time_ids : list string.
 
   Definition is_ok {A} (r : rs A) : bool := match r with Ok _ => true | Err _ => false end.
@@ -325,7 +337,7 @@ Section Target.
     match find_phase P nx with
     | None => FOInvalid
     | Some ph =>
-        match fexec_body (lower (fp_stmts ph)) (enter s) (if next_first then fp_next ph else nx) with
+        match fexec_body (lower guard_outside (fp_stmts ph)) (enter s) (if next_first then fp_next ph else nx) with
         | FNext s' nx' | FExit s' nx' => FO s' (if next_first then nx' else fp_next ph)
         | FStopped s' k => FOHalt s' k
         | FUndef => FOUndef
